@@ -117,7 +117,7 @@ int main(int argc, char **argv)
 				break;
 			}
 		};
-		for (long k = 0; k < N && out.size() < 3; k++) { Scenario sv = base; sv.fail_alloc = (int)k; run_one(sv, "allocation #" + std::to_string(k) + " of " + std::to_string(N) + " fails"); }
+		for (long k = 0; k < N && out.size() < 3 && !budget::over(); k++) { Scenario sv = base; sv.fail_alloc = (int)k; run_one(sv, "allocation #" + std::to_string(k) + " of " + std::to_string(N) + " fails"); }
 		for (size_t i = 0; i + 1 < seeds.size() && N > 2 && out.empty(); i += 2) { Scenario sv = base; sv.fail_alloc = seeds[i] % N; sv.fail_allocs = {(int)(seeds[i + 1] % N)}; run_one(sv, "two allocations fail"); }
 		cc.stat_sum["single_fault_runs"] += N;
 		return out;
